@@ -57,6 +57,8 @@ class RealDecider:
         self.dec = BoboDecider(self.phenomena, CounterGen('e'), CounterGen('r'), max_cache=cache)
         self.dec.subscribe(self.rec)
         self.rec.dec = self.dec
+        # complex / action events of the streams are named after the first pattern of this configuration (predlang.mk_event)
+        pl.FEEDBACK['names'] = (phens[0][0], phens[0][1][0]['name']) if phens and phens[0][1] else None
 
     def table(self) -> str:
         out = []
